@@ -350,3 +350,62 @@ pub fn hex(b: &[u8]) -> String {
     }
     s
 }
+
+/// Run `f` in a forked child (the workers are single-threaded, so forking is safe) and return
+/// the bytes it produced. `Err` describes how the child ended if it did not return: killed by
+/// a signal, or unwound.
+pub fn fork_run<F: FnOnce() -> Vec<u8>>(f: F) -> Result<Vec<u8>, String> {
+    unsafe {
+        let mut fds = [0 as libc::c_int; 2];
+        if libc::pipe(fds.as_mut_ptr()) != 0 {
+            return Err("harness: pipe failed".into());
+        }
+        let pid = libc::fork();
+        if pid < 0 {
+            libc::close(fds[0]);
+            libc::close(fds[1]);
+            return Err("harness: fork failed".into());
+        }
+        if pid == 0 {
+            libc::close(fds[0]);
+            let msg = match std::panic::catch_unwind(std::panic::AssertUnwindSafe(f)) {
+                Ok(v) => {
+                    let mut m = vec![b'R'];
+                    m.extend_from_slice(&v);
+                    m
+                }
+                Err(_) => vec![b'P'],
+            };
+            let mut off = 0;
+            while off < msg.len() {
+                let n = libc::write(fds[1], msg[off..].as_ptr() as *const libc::c_void, msg.len() - off);
+                if n <= 0 {
+                    break;
+                }
+                off += n as usize;
+            }
+            libc::_exit(0);
+        }
+        libc::close(fds[1]);
+        let mut buf: Vec<u8> = Vec::new();
+        let mut tmp = [0u8; 4096];
+        loop {
+            let n = libc::read(fds[0], tmp.as_mut_ptr() as *mut libc::c_void, tmp.len());
+            if n <= 0 {
+                break;
+            }
+            buf.extend_from_slice(&tmp[..n as usize]);
+        }
+        libc::close(fds[0]);
+        let mut status: libc::c_int = 0;
+        libc::waitpid(pid, &mut status, 0);
+        if libc::WIFSIGNALED(status) {
+            return Err(format!("killed by signal {}", libc::WTERMSIG(status)));
+        }
+        match buf.first() {
+            Some(b'R') => Ok(buf[1..].to_vec()),
+            Some(b'P') => Err("unwound".into()),
+            _ => Err(format!("ended with status {} without reporting", libc::WEXITSTATUS(status))),
+        }
+    }
+}
